@@ -526,6 +526,12 @@ func runSched(prop, tier string) int {
 	if prop == "C08" {
 		progs = schedx.Programs08(tier)
 	} else {
+		if why := os.Getenv("VERIF_CHAN_REWRITE_FAILED"); why != "" {
+			// without the rewrite pkg/notify runs on real channels, which the scheduler cannot see:
+			// every verdict would be about the harness, not about the code
+			r.HarnessError("pkg/notify/notify.go uses a channel construct the channel rewriter does not support (" + why + "): C18 cannot be decided on this tree")
+			return r.Finish()
+		}
 		progs = append(schedx.Programs18(tier), schedx.ProgramsNotify(tier)...)
 		judge = "block"
 	}
